@@ -166,10 +166,12 @@ def worker_main(argv):
     out = open(outpath, 'a', buffering=1)
     nviol = 0
     idx = -1
+    stop_file = os.path.join(os.path.dirname(outpath), 'stop')
+    early = bool(os.environ.get('VERIF_STOP_ON_VIOLATION'))
     for idx, case in enumerate(check.cases(tier, seed)):
         if idx % nshards != shard or idx < start:
             continue
-        if time.time() > deadline:
+        if time.time() > deadline or (early and n % 16 == 0 and os.path.exists(stop_file)):
             truncated += 1
             continue
         try:
@@ -196,6 +198,8 @@ def worker_main(argv):
             swcov.update(r.switch_cov)
         if r.tags:
             tags.update(r.tags)
+        if r.violations and early:
+            open(stop_file, 'w').close()
         for v in r.violations:
             nviol += 1
             if nviol <= 40:
@@ -361,8 +365,9 @@ def _conclude(check, pid, tier, seed, records, failed_shards, t0, verbose, resta
                   for q, a in sorted(anchor_cov.items())
                   if not check.anchors or any(q.startswith(p) for p in check.anchors)}
     replay_paths = []
+    rpdir = os.environ.get('VERIF_REPLAY_DIR') or os.path.join(VERIF, 'replays')
     if new_v:
-        os.makedirs(os.path.join(VERIF, 'replays'), exist_ok=True)
+        os.makedirs(rpdir, exist_ok=True)
         seen = set()
         for v in new_v:
             sig = v['v']['sig']
@@ -370,7 +375,7 @@ def _conclude(check, pid, tier, seed, records, failed_shards, t0, verbose, resta
                 continue
             seen.add(sig)
             safe = ''.join(ch if ch.isalnum() or ch in '-_' else '_' for ch in sig)[:80]
-            path = os.path.join(VERIF, 'replays', f'{pid}-{safe}.json')
+            path = os.path.join(rpdir, f'{pid}-{safe}.json')
             with open(path, 'w') as f:
                 json.dump({'property': pid, 'tier': tier, 'seed': seed, 'case': v['case'],
                            'violation': v['v'], 'observed': v.get('observed')}, f, indent=1)
@@ -408,8 +413,13 @@ def _conclude(check, pid, tier, seed, records, failed_shards, t0, verbose, resta
         'violations': len(new_v),
         'verdict': 'violated' if new_v else ('inconclusive' if inconclusive else 'held_on_observed'),
     }
-    os.makedirs(os.path.join(VERIF, 'evidence'), exist_ok=True)
-    with open(os.path.join(VERIF, 'evidence', f'{pid}.json'), 'w') as f:
+    evdir = os.environ.get('VERIF_EVIDENCE_DIR')
+    if not evdir:
+        # evidence under /verif/evidence always describes /repo itself
+        evdir = os.path.join(VERIF, 'evidence') if os.path.realpath(REPO) == '/repo' \
+            else os.path.join(tempfile.gettempdir(), 'verif-evidence-other-tree')
+    os.makedirs(evdir, exist_ok=True)
+    with open(os.path.join(evdir, f'{pid}.json'), 'w') as f:
         json.dump(ev, f, indent=1, sort_keys=True)
     if verbose:
         print(f'{pid} tier={tier} seed={seed}: {n} cases, {len(digests)} distinct non-trivial, '
